@@ -88,6 +88,23 @@ func extraPhases(run *verdict.Run) {
 			io.WriteString(w, "body")
 		}
 	})
+	// a backend response that is cut after the header and part of the body went out
+	mux.HandleFunc("/cut", func(w http.ResponseWriter, r *http.Request) {
+		q := r.URL.Query()
+		full, after := 0, 0
+		fmt.Sscan(q.Get("full"), &full)
+		fmt.Sscan(q.Get("after"), &after)
+		if q.Get("cl") == "1" {
+			w.Header().Set("Content-Length", fmt.Sprint(full))
+		}
+		w.WriteHeader(200)
+		w.Write(bytes.Repeat([]byte("c"), after))
+		if f, ok := w.(http.Flusher); ok {
+			f.Flush()
+		}
+		time.Sleep(20 * time.Millisecond)
+		panic(http.ErrAbortHandler) // net/http drops the connection without ending the body
+	})
 	ln, err := net.Listen("tcp", "127.0.0.1:0")
 	if err != nil {
 		run.Inconclusive("extra backend: %v", err)
@@ -299,6 +316,67 @@ func extraPhases(run *verdict.Run) {
 				}
 			}(proto, ci, c)
 		}
+	}
+	wg.Wait()
+
+	// ---- 1c. backend responses cut mid-body: the client must not be told that the body is complete
+	for i := 0; i < run.Pick(12, 60); i++ {
+		wg.Add(1)
+		go func(i int) {
+			defer wg.Done()
+			proto := []string{"h2", "http/1.1"}[i%2]
+			cl := (i / 2) % 2
+			full := 50000 + 1000*i
+			after := []int{1, 100, 5000, 40000}[(i/4)%4]
+			path := fmt.Sprintf("/cut?full=%d&after=%d&cl=%d", full, after, cl)
+			tc, _, e := rig.StdDial(px.Addr, &tls.Config{InsecureSkipVerify: true, NextProtos: []string{proto}}, nil, nil)
+			if e != nil {
+				return
+			}
+			defer tc.Close()
+			var status int
+			var got []byte
+			var err error
+			if proto == "h2" {
+				cc, e := rig.NewH2(tc)
+				if e != nil {
+					return
+				}
+				ctx, cancel := context.WithTimeout(context.Background(), 15*time.Second)
+				defer cancel()
+				req, _ := http.NewRequestWithContext(ctx, "GET", "https://"+px.Addr+path, nil)
+				resp, e := cc.RoundTrip(req)
+				if e != nil {
+					err = e
+				} else {
+					status = resp.StatusCode
+					got, err = io.ReadAll(resp.Body)
+					resp.Body.Close()
+				}
+			} else {
+				tc.SetDeadline(time.Now().Add(15 * time.Second))
+				fmt.Fprintf(tc, "GET %s HTTP/1.1\r\nHost: front.example\r\n\r\n", path)
+				resp, e := http.ReadResponse(bufio.NewReader(tc), &http.Request{Method: "GET"})
+				if e != nil {
+					err = e
+				} else {
+					status = resp.StatusCode
+					got, err = io.ReadAll(resp.Body)
+					resp.Body.Close()
+				}
+			}
+			run.Eval(1)
+			run.Add("cut_backend_responses_"+proto, 1)
+			run.Distinct(fmt.Sprintf("cut-%s-%d-%d-%d", proto, cl, full, after))
+			w := map[string]any{"protocol": proto, "backend_content_length": cl == 1, "intended_bytes": full, "sent_before_cut": after, "client_status": status, "client_bytes": len(got), "client_error": fmt.Sprint(err)}
+			if len(got) > after || strings.Trim(string(got), "c") != "" {
+				run.Violation("cut-backend-response-altered", w, "%s: the backend sent %d bytes and dropped the connection; the client received %d bytes", proto, after, len(got))
+				return
+			}
+			if status == 200 && err == nil {
+				run.Violation("cut-backend-response-presented-as-complete", w, "%s: the backend sent %d of %d bytes (Content-Length announced: %v) and dropped the connection; the client was given a complete 200 response of %d bytes without any error", proto, after, full, cl == 1, len(got))
+			}
+		}(i)
 	}
 	wg.Wait()
 
